@@ -116,6 +116,10 @@ def run(ctx, replay=None):
     # --- direct oracles beyond the model
     all_traces.append({'id': 'sizes', 'cfg': {'kind': 'sizes', 'partSizes': [1, 2, 3, 7, 64, 4096], 'maxParts': 9 if quick else 33,
                                               'salt': ctx.seed}, 'init': {}, 'steps': []})
+    # concurrent deliveries to one set: results must be linearizable w.r.t. PartSet.tla (checked directly by the driver)
+    for k, (psz, G) in enumerate([(32768, 3), (65536, 2), (4096, 3)]):
+        all_traces.append({'id': 'conc-%d' % k, 'init': {}, 'steps': [],
+                           'cfg': {'kind': 'conc', 'seed': ctx.seed * 100 + k, 'trials': 150 if quick else 1500, 'partSize': psz, 'G': G}})
     for n in ([8, 9, 12] if quick else [8, 9, 11, 12, 13, 16, 17, 24]):
         all_traces.append({'id': 'bigtree-%d' % n, 'cfg': {'kind': 'bigtree', 'n': n}, 'init': {}, 'steps': []})
 
